@@ -13,7 +13,7 @@ from harness import common as C
 from harness import fakempi
 
 RULE = ('OnlineVariance stream: 0-40 samples (quota for 0,1,2,3), 1-7 ranks, scalar or 1-4 element values, weights '
-        'equal / uniform / 12 decades wide / 1e-300-floored, split strided (rank::size) or arbitrary with forced '
+        'equal / uniform / 12 decades wide / partly or wholly 1e-300-floored / rescaled by 1e+-120, split strided (rank::size) or arbitrary with forced '
         'empty and one-sample ranks; optimizer stream: 2-14 posterior samples of (planet_radius, T, log H2O) on a '
         '5-layer TransmissionModel with an in-memory H2O opacity, 1-7 ranks, distinct weights; tied-weights stream: '
         'same with repeated / zero weights. distinct non-trivial = distinct (stream, ranks, samples, weight kind, '
